@@ -92,36 +92,36 @@ theorem payloadOf_ask (now : Int) (g : GReq) :
   cases g <;> rfl
 
 theorem rejectable_ask (v : Nat) (now : Int) (g : GReq) :
-    Rejectable v (ask now g) = true ↔
+    Rejectable0 v (ask now g) = true ↔
       (((payloadOf g).length > 0 ∧ v < 4) ∨ ∃ e, wBody v now g = .error e) := by
   have hb := wBody_error_iff v now g
   cases g with
-  | startup _ => simp [Rejectable, ask, payloadOf, wBody]
-  | options => simp [Rejectable, ask, payloadOf, wBody]
-  | authResponse _ => simp [Rejectable, ask, payloadOf, wBody]
-  | register _ => simp [Rejectable, ask, payloadOf, wBody]
+  | startup _ => simp [Rejectable0, ask, payloadOf, wBody]
+  | options => simp [Rejectable0, ask, payloadOf, wBody]
+  | authResponse _ => simp [Rejectable0, ask, payloadOf, wBody]
+  | register _ => simp [Rejectable0, ask, payloadOf, wBody]
   | query s p pl =>
     simp only [ask] at hb
     rw [hb]
-    simp only [Rejectable, ask, payloadOf, isEmpty_iff_len, Bool.or_eq_true, Bool.and_eq_true, decide_eq_true_eq]
+    simp only [Rejectable0, ask, payloadOf, isEmpty_iff_len, Bool.or_eq_true, Bool.and_eq_true, decide_eq_true_eq]
   | prepare s ks pl =>
     simp only [ask] at hb
     rw [hb]
-    simp only [Rejectable, ask, payloadOf, isEmpty_iff_len, Bool.or_eq_true, Bool.and_eq_true, decide_eq_true_eq]
+    simp only [Rejectable0, ask, payloadOf, isEmpty_iff_len, Bool.or_eq_true, Bool.and_eq_true, decide_eq_true_eq]
   | execute id p pl =>
     simp only [ask] at hb
     rw [hb]
-    simp only [Rejectable, ask, payloadOf, isEmpty_iff_len, Bool.or_eq_true, Bool.and_eq_true, decide_eq_true_eq]
+    simp only [Rejectable0, ask, payloadOf, isEmpty_iff_len, Bool.or_eq_true, Bool.and_eq_true, decide_eq_true_eq]
   | batch typ stmts cons ser dts tsv pl =>
     simp only [ask] at hb
     rw [hb]
-    simp only [Rejectable, ask, payloadOf, isEmpty_iff_len, Bool.or_eq_true, Bool.and_eq_true, decide_eq_true_eq]
+    simp only [Rejectable0, ask, payloadOf, isEmpty_iff_len, Bool.or_eq_true, Bool.and_eq_true, decide_eq_true_eq]
 
-/-- encodeReq fails with a panic / the named-values error exactly on the rejectable requests -/
-theorem encodeReq_rejects_iff (v : Nat) (tracing : Bool) (stream now : Int) (g : GReq) :
-    (∃ e, encodeReq v tracing stream now g = .error e ∧ e ≠ .frameTooBig) ↔ Rejectable v (ask now g) = true := by
+/-- encodeReq0 fails with a panic / the named-values error exactly on the rejectable requests -/
+theorem encodeReq0_rejects_iff (v : Nat) (tracing : Bool) (stream now : Int) (g : GReq) :
+    (∃ e, encodeReq0 v tracing stream now g = .error e ∧ e ≠ .frameTooBig) ↔ Rejectable0 v (ask now g) = true := by
   rw [rejectable_ask]
-  unfold encodeReq
+  unfold encodeReq0
   by_cases hp : (payloadOf g).length > 0 ∧ v < 4
   · simp only [hp, and_self, if_true, true_or, iff_true]
     exact ⟨_, rfl, by simp⟩
@@ -150,5 +150,69 @@ theorem payload_contra (v : Nat) (pl : Payload) (hok : payloadOk v pl = true) (h
   rcases hok with he | ⟨⟨h4, _⟩, _⟩
   · simp [he] at hne
   · omega
+
+/-! ## the count checks (repair of KF-C03-5 / KF-C03-6) -/
+
+theorem tooManyR_ask (now : Int) (g : GReq) : tooManyR (ask now g) = tooManyG g := by
+  cases g with
+  | query s p pl => simp [tooManyR, tooManyG, ask, askParams]
+  | execute id p pl => simp [tooManyR, tooManyG, ask, askParams]
+  | batch typ stmts cons ser dts tsv pl =>
+    have hx : ∀ s : GStmt, (bstmtVals (askStmt s)).length = s.values.length := by
+      intro s; unfold askStmt; split <;> simp [bstmtVals]
+    simp [tooManyR, tooManyG, ask, List.any_map, Function.comp_def, hx]
+  | _ => rfl
+
+theorem valuesOk_len (v : Nat) (b : Bool) (l : List NVal) (h : valuesOk v b l = true) : l.length ≤ 65535 := by
+  simp only [valuesOk, Bool.and_eq_true, decide_eq_true_eq] at h
+  exact h.1.1
+
+theorem paramsOk_len (v : Nat) (p : QParams) (h : paramsOk v p = true) : p.values.length ≤ 65535 := by
+  simp only [paramsOk, Bool.and_eq_true] at h
+  exact valuesOk_len v true _ h.1.1.1.1.1.2
+
+/-- an expressible request passes the count checks -/
+theorem expressible_not_tooManyR (v : Nat) (r : Req) (h : Expressible v r = true) : tooManyR r = false := by
+  cases r with
+  | query s p pl =>
+    simp only [Expressible, Bool.and_eq_true] at h
+    have hl : p.values.length ≤ 65535 := by
+      by_cases h1 : v = 1
+      · have := h.2; simp only [h1, if_true, paramsOkV1, Bool.and_eq_true, Bool.false_eq_true, if_false] at this
+        have he := this.2; simp at he; simp [he]
+      · have := h.2; simp only [h1, if_false] at this; exact paramsOk_len v p this
+    simp [tooManyR]; omega
+  | execute id p pl =>
+    simp only [Expressible, Bool.and_eq_true] at h
+    have hl : p.values.length ≤ 65535 := by
+      by_cases h1 : v = 1
+      · have := h.2; simp only [h1, if_true, paramsOkV1, Bool.and_eq_true] at this
+        exact valuesOk_len _ _ _ this.2
+      · have := h.2; simp only [h1, if_false] at this; exact paramsOk_len v p this
+    simp [tooManyR]; omega
+  | batch typ stmts cons ser ts ks pl =>
+    simp only [Expressible, Bool.and_eq_true, decide_eq_true_eq, List.all_eq_true] at h
+    have hn := h.1.1.1.1.1.1.2
+    have hst := h.1.1.1.1.1.2
+    simp only [tooManyR, Bool.or_eq_false_iff, decide_eq_false_iff_not, List.any_eq_false, decide_eq_true_eq]
+    refine ⟨by omega, ?_⟩
+    intro s hs
+    have hok := hst s hs
+    have : (bstmtVals s).length ≤ 65535 := by
+      cases s <;> simp only [BStmt.ok, Bool.and_eq_true] at hok <;> exact valuesOk_len _ _ _ hok.2
+    omega
+  | _ => rfl
+
+/-- **the repaired builders** fail with a panic / an error other than ErrFrameTooBig exactly on the
+    rejectable requests, which now include the two count conditions -/
+theorem encodeReq_rejects_iff (v : Nat) (tracing : Bool) (stream now : Int) (g : GReq) :
+    (∃ e, encodeReq v tracing stream now g = .error e ∧ e ≠ .frameTooBig) ↔ Rejectable v (ask now g) = true := by
+  unfold Rejectable encodeReq
+  rw [tooManyR_ask]
+  cases h : tooManyG g
+  · simp only [Bool.false_eq_true, if_false, Bool.or_false]
+    exact encodeReq0_rejects_iff v tracing stream now g
+  · simp only [if_true, Bool.or_true, iff_true]
+    exact ⟨_, rfl, by simp⟩
 
 end C03
